@@ -16,7 +16,8 @@ logging.getLogger('Spectrum_mod').setLevel(logging.ERROR)
 
 REG = Registry(
     'C05',
-    rule=('cases = (dimension 1-5, shared grid of 4-30 points from {uniform, exponential, quadratic, random}, density from '
+    rule=('cases = (dimension 1-5, grid of 4-30 points from {uniform, exponential, quadratic, random} shared by all populations or, in a '
+          'quarter of the multi-population cases of the semi-analytic and direct paths, one grid per population; density from '
           '{random, sparse, edges, smooth}, sample sizes 1-40 per population (smaller in 4-D/5-D), path in {semi-analytic, direct, '
           'direct+het_ascertained, admix_props, inbreeding}). Non-trivial = non-uniform grid and n>=3 somewhere and (dimension>=2 or a '
           'special option). Distinct by hash of the case.'),
@@ -34,8 +35,29 @@ def phi_case(draw, dims=(1, 2, 3, 4, 5), max_n=None):
     spec = draw(G.grid_spec(min_pts=L, max_pts=L, kinds=kinds))
     mn = max_n or {1: 40, 2: 14, 3: 7, 4: 4, 5: 3}[nd]
     ns = [draw(st.integers(1, mn)) for _ in range(nd)]
+    # one grid per population (from_phi takes a list of them): 0 = the case's grid, k > 0 = another grid of the same length
+    ag = [0] * nd
+    if nd >= 2 and draw(st.integers(0, 3)) == 0:
+        ag = [draw(st.integers(0, 2)) for _ in range(nd)]
     return dict(nd=nd, L=spec['L'], grid=spec, phi_seed=draw(st.integers(0, 2 ** 31 - 1)), phi_kind=draw(st.sampled_from(G.PHI_KINDS)),
-                ns=ns)
+                ns=ns, axis_grids=ag)
+
+
+def grids_of(c, xx, analytic=False):
+    """the list of per-population grids of a case; the semi-analytic path needs the first two populations on the same grid"""
+    ag = list(c.get('axis_grids') or [0] * c['nd'])
+    if analytic and len(ag) >= 2:
+        ag[0] = ag[1] = 0
+    out = []
+    for k in ag:
+        if k == 0:
+            out.append(xx)
+        else:
+            rs = np.random.RandomState((c['phi_seed'] + 101 * k) % (2 ** 31))
+            inner = np.sort(rs.uniform(0.02, 0.98, len(xx) - 2))
+            inner = 0.02 + 0.96 * (inner - inner.min() + 0.05) / (inner.max() - inner.min() + 0.1) if len(inner) > 1 else inner
+            out.append(np.concatenate([[0.0], np.maximum.accumulate(inner + 1e-6 * np.arange(len(inner))), [1.0]]))
+    return out, any(k != 0 for k in ag)
 
 
 def build(c):
@@ -64,21 +86,23 @@ def r1(c, rec):
     total = trapezoid mass; linear in phi; labels and extrap_x set; input untouched."""
     xx, phi = build(c)
     nd, ns = c['nd'], c['ns']
-    rec.case(c, _nt(c), ['dim=%d' % nd, c['grid']['kind']])
+    xxs, differ = grids_of(c, xx, analytic=True)
+    rec.case(c, _nt(c), ['dim=%d' % nd, c['grid']['kind']] + (['per-population grids'] if differ else []))
     phi0 = phi.copy()
     with dadi_call('from_phi (semi-analytic)', path='analytic', dim=nd):
-        fs = dadi.Spectrum.from_phi(phi, ns, [xx] * nd, mask_corners=False, pop_ids=['p%d' % i for i in range(nd)])
+        fs = dadi.Spectrum.from_phi(phi, ns, list(xxs), mask_corners=False, pop_ids=['p%d' % i for i in range(nd)])
     require(np.array_equal(phi, phi0), 'from_phi modified phi')
-    exp = S.contract(phi, [S.W_hat(n, xx) for n in ns])
+    exp = S.contract(phi, [S.W_hat(n, g) for n, g in zip(ns, xxs)])
+    rnd = max(roundoff(phi, g, nd) for g in xxs)
     require_close(data_of(fs), exp, 1e-10 * max(ns), 'semi-analytic spectrum vs exact hat-basis integral', rec, key='analytic',
-                  atol=1e-14 * np.abs(exp).max() + roundoff(phi, xx, nd), path='analytic', dim=nd)
-    mass = float(S.contract(phi, [S.trapz_weights(xx)[None, :]] * nd).ravel()[0])
+                  atol=1e-14 * np.abs(exp).max() + rnd, path='analytic', dim=nd)
+    mass = float(S.contract(phi, [S.trapz_weights(g)[None, :] for g in xxs]).ravel()[0])
     require_close(data_of(fs).sum(), mass, 1e-10, 'sum of all entries vs trapezoid mass of phi', rec, key='analytic total',
-                  atol=1e-300 + roundoff(phi, xx, nd) * float(np.prod([n + 1 for n in ns])))
+                  atol=1e-300 + rnd * float(np.prod([n + 1 for n in ns])))
     require(fs.pop_ids == ['p%d' % i for i in range(nd)], 'pop_ids not set')
     require(fs.extrap_x == xx[1], 'extrap_x is not the first grid point above zero')
     require(not np.ma.getmaskarray(fs).any(), 'mask_corners=False ignored')
-    fs2 = dadi.Spectrum.from_phi(phi, ns, [xx] * nd)
+    fs2 = dadi.Spectrum.from_phi(phi, ns, list(xxs))
     m = np.ma.getmaskarray(fs2)
     require(m.flat[0] and m.flat[-1] and m.sum() == 2, 'default mask is not exactly the two corners')
 
@@ -97,16 +121,17 @@ def r2(c, rec):
     """Direct path (1-4 dimensions, optional het_ascertained) = trapezoid rule of binomial x phi; total = trapezoid mass."""
     xx, phi = build(c)
     nd, ns, het = c['nd'], c['ns'], c['het']
-    rec.case(c, _nt(c, het is not None), ['dim=%d' % nd, 'het=%s' % het])
+    xxs, differ = grids_of(c, xx)
+    rec.case(c, _nt(c, het is not None), ['dim=%d' % nd, 'het=%s' % het] + (['per-population grids'] if differ else []))
     kw = dict(het_ascertained=het) if het else dict(force_direct=True)
     with dadi_call('from_phi (direct)', path='direct', dim=nd):
-        fs = dadi.Spectrum.from_phi(phi, ns, [xx] * nd, mask_corners=False, **kw)
-    Ws = [S.W_trap(n, xx, het=(het is not None and 'xyz'.index(het[0]) == k)) for k, n in enumerate(ns)]
+        fs = dadi.Spectrum.from_phi(phi, ns, list(xxs), mask_corners=False, **kw)
+    Ws = [S.W_trap(n, g, het=(het is not None and 'xyz'.index(het[0]) == k)) for k, (n, g) in enumerate(zip(ns, xxs))]
     exp = S.contract(phi, Ws)
     require_close(data_of(fs), exp, 1e-10 * max(ns), 'direct-path spectrum vs trapezoid oracle', rec, key='direct',
                   atol=1e-14 * np.abs(exp).max(), path='direct', dim=nd)
     if het is None:
-        mass = float(S.contract(phi, [S.trapz_weights(xx)[None, :]] * nd).ravel()[0])
+        mass = float(S.contract(phi, [S.trapz_weights(g)[None, :] for g in xxs]).ravel()[0])
         require_close(data_of(fs).sum(), mass, 1e-10, 'sum of all entries (direct) vs trapezoid mass', rec, key='direct total', atol=1e-300)
 
 
